@@ -15,8 +15,9 @@ for d in seeded/*/; do
     VERIF_WATCHDOG_S=${VERIF_WATCHDOG_S:-15} timeout 1200 tools/run_mutant.sh /verif/$d/patch.diff $prop > $log 2>&1
     rc=$?
     git -C /repo reset -q --hard
+    nviol=$(grep -oE "[0-9]+ violation\(s\)" $log | head -1)
     classes=$(grep "violation class" $log | sed 's/ *violation class //; s/: [0-9]* run(s)//' | sed 's/ (.*)//' | sort -u | tr '\n' ',' | sed 's/,$//; s/,/, /g')
-    if [ $rc = 0 ]; then verdict="caught (exit 1)"; else verdict="**MISSED** ($(grep 'check exit code' $log))"; fi
+    if [ $rc = 0 ]; then verdict="caught (exit 1; $nviol in the quick run)"; else verdict="**MISSED** ($(grep 'check exit code' $log))"; fi
     echo "| $id | $prop | $verdict | $classes |" >> $OUT
     echo "$id $prop rc=$rc"
     rm -f $log
